@@ -20,9 +20,10 @@ import time
 
 VERIF = os.path.dirname(os.path.dirname(os.path.abspath(__file__)))
 SIM = os.path.join(VERIF, "sim")
-BUILD = os.path.join(VERIF, "build", "asan")
-REPLAYS = os.path.join(VERIF, "replays")
-EVIDENCE = os.path.join(VERIF, "evidence")
+BUILD = os.environ.get("PEGSIM_BUILD", os.path.join(VERIF, "build", "asan"))  # selftest builds mutants elsewhere
+OUTROOT = os.environ.get("PEGSIM_OUT", VERIF)
+REPLAYS = os.path.join(OUTROOT, "replays")
+EVIDENCE = os.path.join(OUTROOT, "evidence")
 KNOWN = os.path.join(VERIF, "known_findings.json")
 
 # property -> (make targets, [(binary, extra worker args)])
@@ -77,7 +78,7 @@ def sh(cmd, **kw):
 
 def build(targets):
     t0 = time.time()
-    r = sh(["make", "-C", SIM, "-j16"] + targets)
+    r = sh(["make", "-C", SIM, "-j16", "B=" + BUILD] + targets)
     if r.returncode != 0:
         tail = "\n".join(r.stdout.splitlines()[-40:])
         print("BUILD FAILED (the tree under /repo does not compile with the simulator):\n" + tail)
@@ -132,7 +133,7 @@ def main():
             return 2
 
     total = args.runs or RUNS[tier]
-    workdir = os.path.join(VERIF, "build", "run", f"{prop}-{tier}-{os.getpid()}")
+    workdir = os.path.join(os.path.dirname(BUILD), "run", f"{prop}-{tier}-{os.getpid()}")
     shutil.rmtree(workdir, ignore_errors=True)
     os.makedirs(workdir)
     os.makedirs(REPLAYS, exist_ok=True)
